@@ -40,6 +40,7 @@ let cmd = function
   | ["dispatchtaken"; r] -> QDispatchTaken (nat r)
   | ["clear"] -> QClear
   | ["emptyq"] -> QEmpty
+  | ["waitfor0"] -> QWaitFor0
   | ["ledger"] -> QLedger
   | ["final"] -> QFinal
   | w -> failwith ("bad q command: " ^ String.concat " " w)
